@@ -62,4 +62,10 @@ theorem independent_writer_is_read_exactly (a : Spec.Dos.ASide) (h : WFSideDesc 
       obtain ⟨f, hf, hs, _⟩ := render_live a h j hj ((liveB_iff _).mp hl)
       exact hno f hf hs
 
+/-- the hypotheses of `independent_writer_is_read_exactly` are decided by the executable check
+    `Spec.Dos.wfDescB`, which the driver evaluates on every description the generators draw -/
+theorem generator_domain (a : Spec.Dos.ASide) (h : Spec.Dos.wfDescB a = true) :
+    WFSideDesc a ∧ ∀ f ∈ a.files, 255 * (8 * (f.chain.length - 1) + f.lastSectors - 1) + f.lastBytes = f.content.length :=
+  wfDescB_sound a h
+
 end Moto.C07
